@@ -126,4 +126,152 @@ theorem int_spelling_pending (st : St) (hm : st.mode = .main) (sign ds : Bytes) 
     rw [number_digits _ ds (pos + 1) rfl hd]
     simp
 
+/-! ### names -/
+
+/-- a byte that may be written raw in a name: regular, 21h–7Eh, not `#` (ISO 32000-1 7.3.5) -/
+def nameRaw (c : UInt8) : Bool :=
+  33 ≤ c && c ≤ 126 && c != 35 && c != 40 && c != 41 && c != 60 && c != 62 && c != 91 && c != 93 &&
+    c != 123 && c != 125 && c != 47 && c != 37
+
+/-- one element of a name's spelling: a raw byte or `#` + two hexadecimal digit characters -/
+inductive NameItem where
+  | raw (c : UInt8)
+  | esc (h l : UInt8)
+
+def hexCharVal (c : UInt8) : Nat := (digitVal c).getD 0
+
+def NameItem.ok : NameItem → Prop
+  | .raw c => nameRaw c = true
+  | .esc h l => isHEX h = true ∧ isHEX l = true
+
+def NameItem.render : NameItem → Bytes
+  | .raw c => [c]
+  | .esc h l => [35, h, l]
+
+def NameItem.value : NameItem → UInt8
+  | .raw c => c
+  | .esc h l => UInt8.ofNat (hexCharVal h * 16 + hexCharVal l)
+
+def renderName : List NameItem → Bytes
+  | [] => []
+  | i :: r => i.render ++ renderName r
+
+def nameValue : List NameItem → Bytes
+  | [] => []
+  | i :: r => i.value :: nameValue r
+
+theorem nameRaw_facts : ∀ c : UInt8, (!nameRaw c || !isEND_LITERAL c) = true :=
+  forall_byte _ (by decide +kernel)
+
+theorem name_byte_facts : (isEND_LITERAL 35 && isNONSPC 47) = true := by decide +kernel
+
+/-- the name token being read denotes `v`: either everything is in `_curtoken`, or the last byte is
+    still the two digits of a `#xx` escape -/
+def NamePending (v : Bytes) (tp : Nat) (st : St) : Prop :=
+  st.tpos = tp ∧
+  ((st.mode = .literal ∧ st.cur = v) ∨
+   (∃ h l, st.mode = .literalHex ∧ st.hex = [h, l] ∧ isHEX h = true ∧ isHEX l = true ∧
+      st.cur ++ [UInt8.ofNat (hexCharVal h * 16 + hexCharVal l)] = v))
+
+theorem hex_pair_value (h l : UInt8) (hh : isHEX h = true) (hl : isHEX l = true) :
+    pyIntBase 16 [h, l] = some (hexCharVal h * 16 + hexCharVal l) ∧ hexCharVal h * 16 + hexCharVal l < 256 := by
+  have h1 := hex_digit h
+  have h2 := hex_digit l
+  simp only [hh, hl, Bool.not_true, Bool.false_or, digitBelow] at h1 h2
+  split at h1
+  · rename_i a ha
+    split at h2
+    · rename_i b hb
+      have ha' : a < 16 := by simpa using h1
+      have hb' : b < 16 := by simpa using h2
+      simp [pyIntBase, natOfDigits, ha, hb, ha', hb', hexCharVal]
+      omega
+    · simp at h2
+  · simp at h1
+
+/-- A completed `#xx` escape is turned into its byte by whatever byte comes next. -/
+theorem literalHex_full (st : St) (c : UInt8) (p : Nat) (h l : UInt8) (hm : st.mode = .literalHex)
+    (hx : st.hex = [h, l]) (hh : isHEX h = true) (hl : isHEX l = true) :
+    stepByte st c p =
+      stepByte { st with cur := st.cur ++ [UInt8.ofNat (hexCharVal h * 16 + hexCharVal l)], mode := .literal } c p := by
+  have hv := hex_pair_value h l hh hl
+  rw [step_hit st c p (Or.inl (by simp [hm, searchClass]))]
+  simp [atHit, hm, parseLiteralHexHit, hx, hv.1, hv.2]
+
+/-- Any pending name state behaves, on the next byte, like a `literal` state whose `_curtoken` is the value. -/
+theorem namePending_literal (v : Bytes) (tp : Nat) (st : St) (c : UInt8) (p : Nat) (h : NamePending v tp st) :
+    ∃ st', st'.mode = .literal ∧ st'.cur = v ∧ st'.tpos = tp ∧ stepByte st c p = stepByte st' c p := by
+  obtain ⟨htp, h | ⟨hh, hl, hm, hx, h1, h2, hv⟩⟩ := h
+  · exact ⟨st, h.1, h.2, htp, rfl⟩
+  · refine ⟨{ st with cur := st.cur ++ [UInt8.ofNat (hexCharVal hh * 16 + hexCharVal hl)], mode := .literal },
+      rfl, hv, htp, ?_⟩
+    exact literalHex_full st c p hh hl hm hx h1 h2
+
+theorem name_item_step (v : Bytes) (tp : Nat) (st : St) (p : Nat) (i : NameItem) (hp : NamePending v tp st)
+    (hi : i.ok) : ∃ st', NamePending (v ++ [i.value]) tp st' ∧ foldBytes st i.render p = (st', []) := by
+  cases i with
+  | raw c =>
+    obtain ⟨st', hm, hc, htp, he⟩ := namePending_literal v tp st c p hp
+    have hne : isEND_LITERAL c = false := by
+      have := nameRaw_facts c
+      simp only [NameItem.ok] at hi
+      simpa [hi] using this
+    refine ⟨accum st' [c], ⟨by simp [accum, hm, htp], Or.inl ⟨by simp [hm], by simp [accum, hm, hc, NameItem.value]⟩⟩, ?_⟩
+    simp only [NameItem.render, foldBytes, he, step_nonmatch st' c p isEND_LITERAL (by simp [hm, searchClass]) hne]
+    simp
+  | esc h l =>
+    obtain ⟨st', hm, hc, htp, he⟩ := namePending_literal v tp st 35 p hp
+    simp only [NameItem.ok] at hi
+    have h35 : isEND_LITERAL 35 = true := by have := name_byte_facts; simp at this; exact this.1
+    -- '#'
+    have s1 : stepByte st' 35 p = ({ st' with hex := [], mode := .literalHex }, []) := by
+      rw [step_hit st' 35 p (Or.inr ⟨isEND_LITERAL, by simp [hm, searchClass], h35⟩)]
+      simp [atHit, hm, parseLiteralHit]
+    -- first digit
+    have s2 : stepByte { st' with hex := [], mode := .literalHex } h (p + 1)
+        = ({ st' with hex := [h], mode := .literalHex }, []) := by
+      rw [step_hit _ h (p + 1) (Or.inl (by simp [searchClass]))]
+      simp [atHit, parseLiteralHexHit, hi.1]
+    have s3 : stepByte { st' with hex := [h], mode := .literalHex } l (p + 1 + 1)
+        = ({ st' with hex := [h, l], mode := .literalHex }, []) := by
+      rw [step_hit _ l (p + 1 + 1) (Or.inl (by simp [searchClass]))]
+      simp [atHit, parseLiteralHexHit, hi.2]
+    refine ⟨{ st' with hex := [h, l], mode := .literalHex }, ⟨htp, Or.inr ⟨h, l, rfl, rfl, hi.1, hi.2, ?_⟩⟩, ?_⟩
+    · simp [NameItem.value, hc]
+    · simp only [NameItem.render, foldBytes, he, s1, s2, s3]
+      simp
+
+theorem name_items_fold : ∀ (items : List NameItem) (v : Bytes) (tp : Nat) (st : St) (p : Nat),
+    NamePending v tp st → (∀ i ∈ items, i.ok) →
+    ∃ st', NamePending (v ++ nameValue items) tp st' ∧ foldBytes st (renderName items) p = (st', [])
+  | [], v, tp, st, p, hp, _ => ⟨st, by simpa [nameValue] using hp, by simp [renderName, foldBytes]⟩
+  | i :: r, v, tp, st, p, hp, hok => by
+    obtain ⟨st1, hp1, hf1⟩ := name_item_step v tp st p i hp (hok i (by simp))
+    obtain ⟨st2, hp2, hf2⟩ := name_items_fold r (v ++ [i.value]) tp st1 (p + i.render.length) hp1
+      (fun j hj => hok j (by simp [hj]))
+    refine ⟨st2, by simpa [nameValue] using hp2, ?_⟩
+    simp only [renderName]
+    rw [foldBytes_append, hf1, hf2]
+    simp
+
+/-- A pending name ends at any delimiter / white-space byte other than `#`: the name is emitted and
+    the byte is handled by the main scanner. -/
+theorem name_end (v : Bytes) (tp : Nat) (st : St) (d : UInt8) (p : Nat) (hp : NamePending v tp st)
+    (hd : isEND_LITERAL d = true) (h35 : d ≠ 35) :
+    ∃ st', st'.mode = .main ∧
+      stepByte st d p = ((stepByte st' d p).1, (tp, Token.lit v) :: (stepByte st' d p).2) := by
+  obtain ⟨st1, hm, hc, htp, he⟩ := namePending_literal v tp st d p hp
+  have h35' : (d == 35) = false := by simpa using h35
+  refine ⟨{ st1 with mode := .main }, rfl, ?_⟩
+  rw [he, step_hit st1 d p (Or.inr ⟨isEND_LITERAL, by simp [hm, searchClass], hd⟩)]
+  simp [atHit, hm, parseLiteralHit, h35', emit, hc, htp]
+
+/-- In the main scanner `/` starts a name token at the current position. -/
+theorem main_name_start (st : St) (pos : Nat) (hm : st.mode = .main) :
+    ∃ st', NamePending [] pos st' ∧ stepByte st 47 pos = (st', []) := by
+  have h47 : isNONSPC 47 = true := by have := name_byte_facts; simp at this; exact this.2
+  refine ⟨{ st with tpos := pos, cur := [], mode := .literal }, ⟨rfl, Or.inl ⟨rfl, rfl⟩⟩, ?_⟩
+  rw [step_hit st 47 pos (Or.inr ⟨isNONSPC, by simp [hm, searchClass], h47⟩)]
+  simp [atHit, hm, parseMainHit]
+
 end PdfVerif.Lexer
